@@ -149,7 +149,7 @@ def gen(t, tier):
     # tile nobody asks for now), tiles older than an hour are to be refreshed
     sc['aged_colour'] = sc['backend'].get('link') == 'symlink' and bool(t.chance(0.5))
     # threads may also be switched between two statements of the tile manager / cache code (line events)
-    sc['linepreempt'] = t.pick([None] * 8 + [30, 200])
+    sc['linepreempt'] = t.pick([None] * 7 + [10, 40, 200])
     if sc['backend']['type'] in SQL_TYPES and mode == 'kill':
         mode = sc['mode'] = 'plain'
     if (sc['backend']['type'] == 'compact' or sc['backend'].get('layout') in ('tc', 'tms')) and not sc['backend'].get('link'):
@@ -464,7 +464,7 @@ def _run_tm(sc, tape):
         w.extra_patches.append((times_mod, 'datetime', C.datetime_module(w.clock)))     # relative rules read the simulated clock
     if sc.get('linepreempt'):
         sched.enable_line_preemption(['mapproxy/cache/tile.py', 'mapproxy/cache/base.py', 'mapproxy/cache/mbtiles.py',
-                                      'mapproxy/cache/geopackage.py', 'mapproxy/cache/file.py'], sc['linepreempt'])
+                                      'mapproxy/cache/geopackage.py', 'mapproxy/cache/file.py', 'mapproxy/grid.py'], sc['linepreempt'])
     sql = sc['backend']['type'] in SQL_TYPES
     realdir = None
     simsql = None
